@@ -232,7 +232,7 @@ def run_config(cfg):
         res.status = 'error'; res.trace = 'symbolic operator deviates from real torch by %g' % dev
         return res
     tau = Fraction(1, 10 ** 9) * Fraction(scale if cfg['taps'] == 'concrete' else max(1, cfg['Lc'] * cfg['Lr']))
-    st = smt.Stats(); solver = smt.Solver(stats=st, timeout_ms=20000)
+    st = smt.Stats(); solver = smt.Solver(stats=st, timeout_ms=60000, nl_timeout_ms=20000)
     sats = D.decide_bands(res, solver, [ya.a], [list(yb.a.reshape(-1))], tau, ['sep_minus_nonsep'])
     d0 = ya.a.reshape(-1)[0] - yb.a.reshape(-1)[0]
     if not D.canary_ok(res, d0, ids.reshape(-1)[0], tau):
